@@ -444,16 +444,19 @@ impl<M: Manager, W: From<Object<M>>> Pool<M, W> {
             return Ok(None);
         }
 
-        if apply_timeout(
+        match apply_timeout(
             self.inner.runtime,
             TimeoutType::Recycle,
             timeouts.recycle,
             self.inner.manager.recycle(&mut inner.obj, &inner.metrics),
         )
         .await
-        .is_err()
         {
-            return Ok(None);
+            Ok(()) => {}
+            // A recycle timeout without a runtime is an error of this call
+            // and not a reason to silently discard objects.
+            Err(PoolError::NoRuntimeSpecified) => return Err(PoolError::NoRuntimeSpecified),
+            Err(_) => return Ok(None),
         }
 
         #[cfg(deadpool_verif)]
